@@ -400,3 +400,231 @@ Proof.
   - reflexivity.
   - destruct Hc' as [<-|[]]. vm_compute in E. discriminate E.
 Qed.
+(** * C05, SHACL half: the abstract RDF graph of the SHACL output
+
+    [Model.ShaclDoc.shacl_graph ns tau shapes] lists the triples
+    [ShaclSerializer] adds to its rdflib graph for a shape list (blank nodes
+    identified by their position in the tree of [_add_triple] calls; faults
+    are explicit errors); harness/vp/shacldoc.py checks on every run of C05
+    and C11 that the real SHACL document, parsed by rdflib, is ISOMORPHIC to
+    it.  The three statements below are the reference predicates of
+    Spec/ShaclGraphSpec.v (every IRI spelled out there).  They need no domain
+    hypothesis beyond "the serialiser returned a graph"; on C11's domain
+    ([SerialShacl.C11_dom_shape]: http(s) predicates, well-formed statements)
+    it does ([C05_shacl_wellformed]). *)
+From Shexer Require Import Spec.ConstraintSpec Spec.ShaclGraphSpec Model.SerialShacl Model.ShaclDoc.
+From Shexer Require Import Proofs.ClosureLemmas Proofs.EndToEnd2 Proofs.ShaclDocProofs Proofs.ShaclDocRun.
+
+(** S1: every object of an [sh:node] arc is the IRI of a shape of the list
+    and is typed [sh:NodeShape] -- provided the references of the list resolve *)
+Theorem C05_shacl_node_objects_declared : forall ns tau shapes L g,
+  shacl_graph ns tau shapes = inl g -> names_iris shapes L -> ClosureLemmas.refs_closed shapes ->
+  node_objects_declared g (map fst L).
+Proof. intros ns tau shapes L g. exact (shacl_gen_node_objects_declared no_patterns ns tau shapes L g). Qed.
+Print Assumptions C05_shacl_node_objects_declared.
+
+(** S2: every property shape has exactly one path in the accepted encoding
+    (one [sh:path] and no nested [sh:property]; or no [sh:path] and one nested
+    [sh:property] whose node has exactly one [sh:inversePath]) *)
+Theorem C05_shacl_one_path : forall ns tau shapes g,
+  shacl_graph ns tau shapes = inl g -> property_shapes_one_path g.
+Proof. intros ns tau shapes g. exact (shacl_gen_one_path no_patterns ns tau shapes g). Qed.
+Print Assumptions C05_shacl_one_path.
+
+(** S3: the nodes typed [sh:NodeShape] are exactly the shapes' IRIs; with
+    pairwise distinct labels each is typed once and has exactly one
+    [sh:targetClass], the class of its shape *)
+Theorem C05_shacl_node_shapes_iff : forall ns tau shapes L g,
+  shacl_graph ns tau shapes = inl g -> names_iris shapes L ->
+  forall n, node_shape g n <-> exists u c, In (u, c) L /\ n = TIri u.
+Proof. intros ns tau shapes L g. exact (shacl_gen_node_shapes_iff no_patterns ns tau shapes L g). Qed.
+Print Assumptions C05_shacl_node_shapes_iff.
+
+Theorem C05_shacl_one_node_shape_per_shape : forall ns tau shapes L g,
+  shacl_graph ns tau shapes = inl g -> names_iris shapes L -> NoDup (map fst L) ->
+  node_shapes_exact g L.
+Proof. intros ns tau shapes L g. exact (shacl_gen_node_shapes_exact no_patterns ns tau shapes L g). Qed.
+Print Assumptions C05_shacl_one_node_shape_per_shape.
+
+(** the same with [detect_minimal_iri] on ([sh:pattern] arcs on the node shapes) *)
+Theorem C05_shacl_any_detect : forall z ns tau shapes L g,
+  shacl_graph_gen z ns tau shapes = inl g -> names_iris shapes L ->
+  (ClosureLemmas.refs_closed shapes -> node_objects_declared g (map fst L)) /\
+  property_shapes_one_path g /\
+  (NoDup (map fst L) -> node_shapes_exact g L).
+Proof.
+  intros z ns tau shapes L g Hg HL. split; [|split].
+  - exact (shacl_gen_node_objects_declared z ns tau shapes L g Hg HL).
+  - exact (shacl_gen_one_path z ns tau shapes g Hg).
+  - exact (shacl_gen_node_shapes_exact z ns tau shapes L g Hg HL).
+Qed.
+Print Assumptions C05_shacl_any_detect.
+
+(** composition with C11: on C11's domain the serialiser returns a graph; it is
+    the flattening of the document C11 relates, shape by shape, to the ShExC text *)
+Theorem C05_shacl_graph_total : forall ns tau shapes,
+  forallb (SerialShacl.C11_dom_shape ns tau) shapes = true ->
+  exists cs d L, shex_doc_view ns tau shapes = VOk cs /\ shacl_doc tau shapes = VOk d /\
+                 same_doc d (enc_doc cs) /\ shacl_graph ns tau shapes = inl (doc_triples 0 d) /\
+                 names_iris shapes L.
+Proof. exact shacl_graph_total. Qed.
+Print Assumptions C05_shacl_graph_total.
+
+Theorem C05_shacl_wellformed : forall ns tau shapes,
+  forallb (SerialShacl.C11_dom_shape ns tau) shapes = true ->
+  ClosureLemmas.refs_closed shapes -> NoDup (map sh_name shapes) ->
+  exists g L, shacl_graph ns tau shapes = inl g /\ names_iris shapes L /\
+              node_objects_declared g (map fst L) /\ property_shapes_one_path g /\ node_shapes_exact g L.
+Proof. exact shacl_graph_wellformed. Qed.
+Print Assumptions C05_shacl_wellformed.
+
+(** S4, the whole run.  With the default shapes namespace and a graph none of
+    whose property / datatype / class IRIs starts with the shape marker, the
+    references of the extracted shapes resolve (no hypothesis on the shape
+    list is left) ... *)
+Theorem C05_run_refs_closed : forall fa c thr g ns shapes,
+  r_shapes_ns c = c_SHAPES_DEFAULT_NAMESPACE ->
+  forallb (sentinel_free (r_tau c)) g = true ->
+  run_shapes fa c thr g = inl (ns, shapes) -> ClosureLemmas.refs_closed shapes.
+Proof. exact run_refs_closed. Qed.
+Print Assumptions C05_run_refs_closed.
+
+(** ... and the SHACL graph of the run satisfies S1-S3 *)
+Theorem C05_shacl_run : forall fa c thr g ns shapes tr L,
+  r_shapes_ns c = c_SHAPES_DEFAULT_NAMESPACE ->
+  forallb (sentinel_free (r_tau c)) g = true ->
+  run_shapes fa c thr g = inl (ns, shapes) ->
+  shacl_graph ns (r_tau c) shapes = inl tr -> names_iris shapes L ->
+  node_objects_declared tr (map fst L) /\ property_shapes_one_path tr /\
+  (forall n, node_shape tr n <-> exists u cl, In (u, cl) L /\ n = TIri u) /\
+  (NoDup (map fst L) -> node_shapes_exact tr L).
+Proof. exact run_shacl_graph. Qed.
+Print Assumptions C05_shacl_run.
+
+(** the helper-call sequence of [_add_shape] the model interprets, and the self-calls / [_add_triple]
+    templates of the helpers it follows, as read from the Python source: an edit of any of these bodies
+    re-opens this file *)
+Example C05_shacl_tables_as_read :
+  shacl_add_shape_steps =
+    [Str "_generate_shape_uri"; Str "_add_shape_uri"; Str "_add_target_class"; Str "_add_min_iri";
+     Str "_add_shape_constraints"] /\
+  shacl_dispatch_calls =
+    [(Str "serialize_shapes", [Str "_add_namespaces"; Str "_add_shapes"; Str "_produce_output"]);
+     (Str "_add_shapes", [Str "_add_shape"]);
+     (Str "_add_shape_constraints", [Str "_add_constraint"]);
+     (Str "_add_constraint", [Str "_is_instantiation_property"; Str "_add_instantiation_constraint";
+                              Str "_add_regular_constraint"]);
+     (Str "_add_path", [Str "_add_direct_path"; Str "_add_inverse_path"]);
+     (Str "_add_node_type", [Str "_is_macro"; Str "_add_nodeKind_macro"; Str "_is_a_shape"; Str "_add_node_shape";
+                             Str "_add_dataType_literal"]);
+     (Str "_add_cardinality", [Str "_min_occurs_from_cardinality"; Str "_max_occurs_from_cardinality";
+                               Str "_add_min_occurs"; Str "_add_max_occurs"]);
+     (Str "_add_min_iri", [Str "_add_triple"; Str "_literal_iri_pattern"])] /\
+  shacl_leaf_triples =
+    [(Str "_add_shape_uri", [(Str "r_shape_uri", Str "RDF.type", Str "_R_SHACL_SHAPE_URI")]);
+     (Str "_add_target_class", [(Str "r_shape_uri", Str "_R_SHACL_TARGET_CLASS_PROP", Str "URIRef(shape.class_uri)")]);
+     (Str "_add_min_iri", [(Str "r_shape_uri", Str "_R_SHACL_PATTERN_PROP", Str "self._literal_iri_pattern(shape)")]);
+     (Str "_add_bnode_property", [(Str "r_shape_uri", Str "_R_SHACL_PROPERTY_PROP", Str "r_constraint_node");
+                                  (Str "r_constraint_node", Str "RDF.type", Str "_R_SHACL_PROPERTY_SHAPE_URI")]);
+     (Str "_add_direct_path", [(Str "r_constraint_node", Str "_R_SHACL_PATH_PROP", Str "r_property_uri")]);
+     (Str "_add_inverse_path", [(Str "r_constraint_node", Str "_R_SHACL_PROPERTY_PROP", Str "inverse_path_node");
+                                (Str "inverse_path_node", Str "_R_SHACL_INVERSE_PATH_PROP", Str "r_property_uri")]);
+     (Str "_add_in_instance", [(Str "r_constraint_node", Str "_R_SHACL_IN_PROP", Str "list_seed_node");
+                               (Str "list_seed_node", Str "RDF.first", Str "target_node");
+                               (Str "list_seed_node", Str "RDF.rest", Str "RDF.nil")]);
+     (Str "_add_node_shape", [(Str "r_constraint_node", Str "_R_SHACL_NODE_PROP",
+                               Str "self._generate_shape_uri(shape_name=target_type)")]);
+     (Str "_add_nodeKind_macro", [(Str "r_constraint_node", Str "_R_SHACL_NODEKIND_PROP", Str "type_node")]);
+     (Str "_add_dataType_literal", [(Str "r_constraint_node", Str "_R_SHACL_DATATYPE_PROP", Str "URIRef(target_type)")]);
+     (Str "_add_min_occurs", [(Str "r_constraint_node", Str "_R_SHACL_MIN_COUNT_PROP",
+                               Str "self._generate_r_literal(value=min_occurs, l_type=_INTEGER)")]);
+     (Str "_add_max_occurs", [(Str "r_constraint_node", Str "_R_SHACL_MAX_COUNT_PROP",
+                               Str "self._generate_r_literal(value=max_occurs, l_type=_INTEGER)")]);
+     (Str "_add_triple", [(Str "self._g_shapes", Str "add", Str "(s, p, o)")])] /\
+  [c_shacl_R_SHACL_SHAPE_URI; c_shacl_R_SHACL_PROPERTY_SHAPE_URI; c_shacl_R_SHACL_TARGET_CLASS_PROP;
+   c_shacl_R_SHACL_PATH_PROP; c_shacl_R_SHACL_INVERSE_PATH_PROP; c_shacl_R_SHACL_PROPERTY_PROP;
+   c_shacl_R_SHACL_NODE_PROP; c_shacl_R_SHACL_PATTERN_PROP] =
+  [SH "NodeShape"; SH "PropertyShape"; SH "targetClass"; SH "path"; SH "inversePath"; SH "property"; SH "node";
+   SH "pattern"].
+Proof. repeat split. Qed.
+
+(** ** non-vacuity: the run of [C05_dom_inhabited] (classes C and D, an arc a -p-> b between their
+    instances, inverse paths on) *)
+Definition c05_sgraph (i : rcfg * graph) : list rdf_triple :=
+  match shacl_graph (fst (c05_shapes i)) (r_tau (fst i)) (snd (c05_shapes i)) with inl g => g | inr _ => [] end.
+Definition c05_sgraph1 := Eval vm_compute in c05_sgraph c05_in1.
+Definition c05_shapes2 := Eval vm_compute in c05_shapes c05_in2.
+Definition c05_sgraph2 := Eval vm_compute in c05_sgraph c05_in2.
+Definition c05_L1 : list (str * str) :=
+  [(Str "http://weso.es/shapes/C", Str "http://ex.org/C"); (Str "http://weso.es/shapes/D", Str "http://ex.org/D")].
+Definition c05_L2 : list (str * str) :=
+  [(Str "http://custom.example/shapes#C", Str "http://ex.org/C"); (Str "http://custom.example/shapes#D", Str "http://ex.org/D")].
+
+Example C05_shacl_inhabited :
+  (* the hypotheses of [C05_shacl_run] and of [C05_shacl_wellformed] hold *)
+  r_shapes_ns (fst c05_in1) = c_SHAPES_DEFAULT_NAMESPACE /\
+  forallb (sentinel_free (r_tau (fst c05_in1))) (snd c05_in1) = true /\
+  run_shapes BAlg (fst c05_in1) (b_ratio 0 1) (snd c05_in1) = inl c05_shapes1 /\
+  forallb (SerialShacl.C11_dom_shape (fst c05_shapes1) (r_tau (fst c05_in1))) (snd c05_shapes1) = true /\
+  shacl_graph (fst c05_shapes1) (r_tau (fst c05_in1)) (snd c05_shapes1) = inl c05_sgraph1 /\
+  names_iris (snd c05_shapes1) c05_L1 /\ NoDup (map fst c05_L1) /\
+  (* the graph has two node shapes, an [sh:node] arc, direct and inverse paths *)
+  List.length c05_sgraph1 = 39 /\
+  objects c05_sgraph1 (TIri (Str "http://weso.es/shapes/C")) (RDFNS "type") = [TIri (SH "NodeShape")] /\
+  objects c05_sgraph1 (TIri (Str "http://weso.es/shapes/D")) (SH "targetClass") = [TIri (Str "http://ex.org/D")] /\
+  existsb (fun t => str_eqb (tr_pred t) (SH "node")) c05_sgraph1 = true /\
+  existsb (fun t => str_eqb (tr_pred t) (SH "path")) c05_sgraph1 = true /\
+  existsb (fun t => str_eqb (tr_pred t) (SH "inversePath")) c05_sgraph1 = true /\
+  node_objects_declaredb c05_sgraph1 (map fst c05_L1) = true /\ property_shapes_one_pathb c05_sgraph1 = true.
+Proof.
+  split; [reflexivity|]. split; [vm_compute; reflexivity|]. split; [vm_compute; reflexivity|].
+  split; [vm_compute; reflexivity|]. split; [vm_compute; reflexivity|].
+  split; [repeat constructor|]. split; [repeat constructor; cbn; intros H; repeat destruct H as [H|H]; try discriminate H; exact H|].
+  repeat split; vm_compute; reflexivity.
+Qed.
+
+(** Known finding C05-F1, SHACL side: with a custom shapes namespace the
+    profiler still names referenced shapes in the default namespace: the
+    [sh:node] object is no node shape of the document (S1 is refuted; S2 and
+    S3 hold) *)
+Lemma C05_shacl_custom_namespace_refuted :
+  exists c g ns shapes tr L,
+    r_shapes_ns c <> c_SHAPES_DEFAULT_NAMESPACE /\ forallb (sentinel_free (r_tau c)) g = true /\
+    run_shapes BAlg c (b_ratio 0 1) g = inl (ns, shapes) /\
+    shacl_graph ns (r_tau c) shapes = inl tr /\ names_iris shapes L /\ NoDup (map fst L) /\
+    ~ ClosureLemmas.refs_closed shapes /\ ~ node_objects_declared tr (map fst L) /\
+    In (TBlank [0; 3], SH "node", TIri (Str "http://weso.es/shapes/D")) tr /\
+    ~ node_shape tr (TIri (Str "http://weso.es/shapes/D")) /\
+    property_shapes_one_path tr /\ node_shapes_exact tr L.
+Proof.
+  exists (fst c05_in2), (snd c05_in2), (fst c05_shapes2), (snd c05_shapes2), c05_sgraph2, c05_L2.
+  assert (Hg : shacl_graph (fst c05_shapes2) (r_tau (fst c05_in2)) (snd c05_shapes2) = inl c05_sgraph2)
+    by (vm_compute; reflexivity).
+  assert (HL : names_iris (snd c05_shapes2) c05_L2) by (repeat constructor).
+  assert (Hnd : NoDup (map fst c05_L2)).
+  { repeat constructor; cbn; intros H; repeat destruct H as [H|H]; try discriminate H; exact H. }
+  split; [vm_compute; discriminate|]. split; [vm_compute; reflexivity|]. split; [vm_compute; reflexivity|].
+  split; [exact Hg|]. split; [exact HL|]. split; [exact Hnd|].
+  split; [intros H; apply ClosureLemmas.refs_closedb_spec in H; vm_compute in H; discriminate H|].
+  split; [intros H; apply node_objects_declaredb_complete in H; vm_compute in H; discriminate H|].
+  split; [vm_compute; tauto|].
+  split.
+  - intros H. apply (C05_shacl_node_shapes_iff _ _ _ _ _ Hg HL) in H. destruct H as [u [cl [Hin E]]].
+    injection E as E. subst u. cbn in Hin. destruct Hin as [H|[H|[]]]; discriminate H.
+  - split; [exact (C05_shacl_one_path _ _ _ _ Hg) | exact (C05_shacl_one_node_shape_per_shape _ _ _ _ _ Hg HL Hnd)].
+Qed.
+
+(** Faults are explicit outcomes: a non-http(s) predicate, an ill-formed label and a missing entry of the
+    examples dictionary end the serialisation (ValueError, ValueError, KeyError) *)
+Example C05_shacl_faults :
+  let st (p : string) := {| s_inv := false; s_prop := Str p; s_types := [Str "IRI"]; s_choice := false; s_card := CExact 1;
+                 s_nocc := 1%N; s_prob := POne; s_comments := [] |} in
+  let sh (n p : string) := {| sh_name := Str n; sh_class := Str "http://ex.org/C"; sh_n := 1%N; sh_stmts := [st p] |} in
+  shacl_graph [] c_RDF_TYPE [sh "%<http://weso.es/shapes/C>"%string "urn:x:p"%string] = inr GValueError /\
+  shacl_graph [] c_RDF_TYPE [sh "<http://weso.es/shapes/C>"%string "http://ex.org/p"%string] = inr GValueError /\
+  shacl_graph_gen {| d_detect := true; d_pat := fun _ => None |} [] c_RDF_TYPE
+                  [sh "%<http://weso.es/shapes/C>"%string "http://ex.org/p"%string] = inr GKeyError /\
+  exists g, shacl_graph_gen {| d_detect := true; d_pat := fun _ => Some (Some (Str "http://ex.org/i")) |} [] c_RDF_TYPE
+                            [sh "%<http://weso.es/shapes/C>"%string "http://ex.org/p"%string] = inl g /\
+            objects g (TIri (Str "http://weso.es/shapes/C")) (SH "pattern") = [TLit (Str "^http://ex.org/i") []].
+Proof. repeat split; try (vm_compute; reflexivity). eexists. split; vm_compute; reflexivity. Qed.
